@@ -29,6 +29,9 @@ EXECUTORS = {
     "bad": [("exec/exec_bad.cpp", "-DBAD_GROUP=%d" % k) for k in range(8)] + [("exec/exec_bad.cpp", "-DBAD_DISPATCH")],
     "iter": [("exec/exec_iter.cpp", "-DIT_GROUP=%d" % k) for k in range(4)] + [("exec/registry.cpp", '-DVERIF_EXEC_NAME="iter(C08)"')],
     "conv": [("exec/exec_conv.cpp", "-DCV_GROUP=%d" % k) for k in range(6)] + [("exec/registry.cpp", '-DVERIF_EXEC_NAME="conv(C09)"')],
+    "sub": [("exec/exec_sub.cpp", "-DSB_GROUP=%d" % k) for k in range(3)] + [("exec/registry.cpp", '-DVERIF_EXEC_NAME="sub(C10)"')],
+    "bfs": [("exec/exec_bfs.cpp", "-DBF_GROUP=%d" % k) for k in range(2)] + [("exec/registry.cpp", '-DVERIF_EXEC_NAME="bfs(C11,C19)"')],
+    "dij": [("exec/exec_dij.cpp", "-DDJ_GROUP=%d" % k) for k in range(2)] + [("exec/registry.cpp", '-DVERIF_EXEC_NAME="dij(C12,C19)"')],
     "eq": [("exec/exec_eq.cpp", "-DEQ_GROUP=%d" % k) for k in range(6)] + [("exec/exec_eq.cpp", "-DEQ_DISPATCH")],
 }
 
